@@ -56,6 +56,21 @@ def same_value(a, b):
     return repr(a) == repr(b)
 
 
+def arg_is(new, arg):
+    """is the stored value the argument itself (for byte/str data: the same bytes, whatever the ownership)"""
+    if isinstance(new, IntV) and isinstance(arg, IntV):
+        return new.l == arg.l
+    if isinstance(new, BoolV) and isinstance(arg, BoolV):
+        return new.f == arg.f
+    if isinstance(new, SliceV) and isinstance(arg, SliceV):
+        return new.base == arg.base and new.start == arg.start and new.end == arg.end
+    if isinstance(new, StructV) and isinstance(arg, StructV) and new.adt == arg.adt and new.variant == arg.variant:
+        return all(arg_is(x, arg.fields.get(k)) for k, x in new.fields.items())
+    if isinstance(new, StructV) and new.adt in ("std::option::Option",) and new.variant == "Some":
+        return arg_is(new.fields["0"], arg)
+    return repr(new) == repr(arg)
+
+
 def builder_adts(F, D):
     out = set(B.adt for B in discover(F))
     out |= set(D.impls_of(FCI_BUILDER))
@@ -74,6 +89,7 @@ def run(ctx, res):
         if F.adts[adt]["is_enum"]:
             continue
         fields = [f["name"] for f in F.adts[adt]["variants"][0]["fields"]]
+        results = {}
         for it in D.inherent(adt):
             d = it["def"]
             b = F.bodies.get(d)
@@ -132,6 +148,26 @@ def run(ctx, res):
                     okf = bool(na & arg_atoms) and not (na & atoms_of_value(me) - arg_atoms)
                     res.ob(okf, "setter-frame" if "owned" not in it["name"] else "rebuild-copy", d,
                            f"{name}::{it['name']}: field {f} is either kept or set from the arguments only", detail=f"{f}: {old!r} -> {new!r}"[:300], pc=s.pc)
+                    # ... and then it is the argument itself, not something computed from it (a setter that normalises its
+                    # input makes the result depend on more than "the value last set")
+                    if okf:
+                        exact = any(arg_is(new, a) for a in args)
+                        res.ob(exact, "setter-frame" if "owned" not in it["name"] else "rebuild-copy", d,
+                               f"{name}::{it['name']}: field {f} receives the argument unchanged", detail=f"{f}: {new!r}"[:300], pc=s.pc)
+                results.setdefault(it["name"], []).append((s, r, args))
+        # an `x_owned` method is `x` up to ownership: on the same arguments both leave the same configuration
+        for mname, outs_o in results.items():
+            if not mname.endswith("_owned") or mname[:-6] not in results:
+                continue
+            outs_b = results[mname[:-6]]
+            if len(outs_o) != 1 or len(outs_b) != 1:
+                continue
+            (so, ro, ao), (sb, rb, ab) = outs_o[0], outs_b[0]
+            for f in fields:
+                n_set += 1
+                res.ob(same_value(ro.fields.get(f), rb.fields.get(f)), "rebuild-copy", next((x["def"] for x in D.inherent(adt) if x["name"] == mname), mname),
+                       f"{name}::{mname} leaves field {f} exactly as {name}::{mname[:-6]} does on the same arguments",
+                       detail=f"{ro.fields.get(f)!r} vs {rb.fields.get(f)!r}"[:300])
         per[name] = {"fields": fields}
     res.floor("(method, field) pairs checked", n_set, 80)
     res.floor("collection adders checked", n_coll, 6)
